@@ -60,7 +60,11 @@ def run(ctx):
     ctx.rule("Q6", "I2C pads: SCL and SDA are open drain (o = 0, oe = ~level); SDA follows the machine only in cycles in which the "
                    "sampled SCL has reached the level the machine commands (a slave stretching the clock holds SCL low: SDA must not "
                    "move then, or START / STOP conditions vanish from the wire); otherwise SDA keeps its previous drive", min_sites=6)
+    ctx.rule("Q7", "PWM: the period counter restarts at 0 and counts up only while enabled, not reset and below period - 1; the output "
+                   "is the registered `enable & (counter < width)` (high for `width` cycles of every `period`); the CSRs reach enable / "
+                   "width / period through a MultiReg (two stages outside the sys domain)", min_sites=5)
     ctx.rule("PRIO", "no dead driver", min_sites=10)
+    _q7(ctx)
 
     # ================================================================ Q1
     for rel, cls, entries in FSMS:
@@ -359,3 +363,42 @@ def run(ctx):
     ctx.ob("Q6", I2C, "I2CMaster", "sda follows the machine only when sampled SCL == commanded SCL, else holds", ok,
            "" if ok else f"{[(a.v, B.show(a.eff())) for a in sd]}: SDA can move while a slave still holds SCL at the other level (clock "
                          f"stretching) -- the START/STOP condition is not seen on the bus", upd[0].line if upd else 0)
+
+
+def _q7(ctx):
+    PWM = "litex/soc/cores/pwm.py"
+    fx = fx_of(ctx, PWM, "PWM")
+    fail_closed(ctx, fx, "PWM")
+    cs = fx.find(domain="sync", target="self.counter")
+    inc = [a for a in cs if a.v in ("self.counter + 1", "1 + self.counter")]
+    clr = [a for a in cs if a.v == "0"]
+    ok = len(inc) == 1 and B.equivalent(inc[0].eff(), B.from_expr("self.enable & ~self.reset & (self.counter < self.period - 1)"))
+    ctx.ob("Q7", PWM, "PWM", "counter + 1 exactly under enable & ~reset & counter < period - 1", ok,
+           "" if ok else f"{[(a.v, B.show(a.eff())) for a in cs]}", inc[0].line if inc else 0)
+    ok = len(clr) >= 1 and len(inc) == 1 and B.equivalent(B.Or(*[a.eff() for a in clr]), B.Not(inc[0].eff())) and len(cs) == len(inc) + len(clr)
+    ctx.ob("Q7", PWM, "PWM", "counter returns to 0 in every other cycle (end of period, disabled, reset)", ok,
+           "" if ok else f"{[(a.v, B.show(a.eff())) for a in cs]}", clr[0].line if clr else 0)
+    out = fx.find(domain="sync", target="pwm")
+    ok = len(out) == 1 and not out[0].guards and B.equivalent(B.from_expr(out[0].value), B.from_expr("self.enable & (counter < self.width)"))
+    ctx.ob("Q7", PWM, "PWM", "pwm <= enable & (counter < width), registered in the PWM's own domain", ok and out[0].domain == (inc[0].domain if inc else out[0].domain),
+           "" if ok else f"{[(a.domain, a.v, a.gtext()) for a in out]}", out[0].line if out else 0)
+    mr = [i for i in fx.insts if i.cls == "MultiReg" and i.call is not None]
+    want = {("self._enable.storage", "self.enable"), ("self._width.storage", "self.width"), ("self._period.storage", "self.period")}
+    got = {(norm(i.call.args[0]), norm(i.call.args[1])) for i in mr if len(i.call.args) >= 2}
+    ctx.ob("Q7", PWM, "PWM", "enable / width / period come from their own CSR through a MultiReg", got == want, "" if got == want else f"{sorted(got)}",
+           mr[0].node if mr else 0)
+    from .. import pyconst as _pc
+    bad = None
+    for i in mr:
+        nkw = [k.value for k in i.call.keywords if k.arg == "n"]
+        nexp = nkw[0] if nkw else None
+        if isinstance(nexp, ast.Name):
+            nexp = fx.localdefs.get(nexp.id, nexp)
+        for cd, wantn in (("sys", (0, 2)), ("pwm", (2,)), ("clk200", (2,))):
+            try:
+                v = _pc.Interp({"clock_domain": cd}).ev(nexp) if nexp is not None else 2
+            except Exception as ex:     # noqa
+                v = f"? ({ex})"
+            if v not in wantn and bad is None:
+                bad = f"clock_domain={cd!r}: MultiReg(.., n={v}) for {norm(i.call.args[1])}: fewer than two synchroniser stages into a foreign domain"
+    ctx.ob("Q7", PWM, "PWM", "two synchroniser stages whenever the PWM is not in the sys domain", bad is None, bad or "", mr[0].node if mr else 0)
